@@ -262,7 +262,7 @@ def selftest_cases():
     ro = bundle({"type": "object", "properties": {"a": {"type": "integer", "readOnly": True}, "b": {"type": "string"}}}, {}, "3.0")
     op = {"params": [{"loc": "query", "name": cps("q"), "required": True, "schema": sch["schema"]}],
           "bodies": [{"media": "application/json", "schema": ro["schema"], "required": True}],
-          "cfg": {"allow_x00": False, "codec": "ascii", "security": False}, "defs": sch["defs"], "dia": "d4"}
+          "cfg": {"allow_x00": False, "codec": "ascii", "security": False}, "defs": sch["defs"], "dia": "d4", "methods": ["POST"]}
     absent = {"t": "absent"}
 
     def case(prop, label, qv, body, qlabel="positive", blabel="positive", others="none"):
@@ -271,7 +271,7 @@ def selftest_cases():
             "labels": {"case": label, "path": others, "query": qlabel, "header": others, "cookie": others, "body": blabel},
             "parts": {"path": absent, "query": q, "header": absent, "cookie": absent}, "alt": {"path": absent, "query": q, "header": absent, "cookie": absent},
             "hasBody": body is not None, "body": encode_value(body) if body is not None else absent, "media": "application/json",
-            "dup": False, "methodDocumented": True, "exempt": False}}
+            "dup": False, "method": "POST", "exempt": False}}
 
     return op, case
 
